@@ -11,7 +11,7 @@
    P layer: registers hold mathematical sequences; PApply gives the element lists the statement promises; the
    observers are Len, = <<>>, first element and a left fold from the monoid's empty element.  Two monoids make
    order, grouping, argument order and the start value visible:
-       "lin"  on integers     Empty = 1,     Combine(x, y) = 2x + y     (non-commutative, non-associative)
+       "lin"  on integers     Empty = 1,     Combine(x, y) = (2x + y) mod 1000003   (non-commutative, non-associative)
        "cat"  on strings      Empty = "^",   Combine = concatenation    (sequence append; here: code 0, then the elements)
    I layer (implementation shaped):
        list   immutable cons cells [head, tail] in a heap that only grows, a register = [len, ptr] with the
@@ -31,11 +31,16 @@ PApply(r, o) == CASE o.op = "new" -> [r EXCEPT ![o.i] = o.xs]
                   [] o.op = "tail" -> [r EXCEPT ![o.i] = Tail(r[o.j])]
 PEmpty == [i \in Regs |-> <<>>]
 
-Combine(m, x, y) == IF m = "lin" THEN 2 * x + y ELSE Append(x, y)
+LinMod == 1000003
+Combine(m, x, y) == IF m = "lin" THEN (2 * x + y) % LinMod ELSE Append(x, y)
 EmptyOf(m) == IF m = "lin" THEN 1 ELSE <<0>>
-RECURSIVE FoldFrom(_, _, _)
-FoldFrom(m, acc, s) == IF s = <<>> THEN acc ELSE FoldFrom(m, Combine(m, acc, Head(s)), Tail(s))
-FoldL(m, s) == FoldFrom(m, EmptyOf(m), s)
+RECURSIVE FoldFrom(_, _, _, _)
+\* left fold, element by element from the first (by index: sequences of a thousand elements are folded too)
+FoldFrom(m, acc, s, i) == IF i > Len(s) THEN acc ELSE FoldFrom(m, Combine(m, acc, s[i]), s, i + 1)
+FoldL(m, s) == FoldFrom(m, EmptyOf(m), s, 1)
+\* the same value without rebuilding the accumulator at every element (SeqADTMC checks FoldFast = FoldL on every
+\* reachable register): used to judge recorded observations of long sequences
+FoldFast(m, s) == IF m = "cat" THEN EmptyOf("cat") \o s ELSE FoldL(m, s)
 
 \* what a user can observe of one register: obs = [elems, len, empty, head (0 when empty: not asked), lin / cat]
 P_Observation(s, obs, m) ==
@@ -43,7 +48,7 @@ P_Observation(s, obs, m) ==
   \cup (IF obs.len = Len(s) THEN {} ELSE {"Length"})
   \cup (IF obs.empty = (Len(s) = 0) THEN {} ELSE {"IsEmpty"})
   \cup (IF s = <<>> \/ obs.head = s[1] THEN {} ELSE {"Head"})
-  \cup (IF obs.fold = FoldL(m, s) THEN {} ELSE {"Fold"})
+  \cup (IF obs.fold = FoldFast(m, s) THEN {} ELSE {"Fold"})
 
 (* ------------------------------------------------------------------ I: list *)
 LInit == [cells |-> <<>>, reg |-> [i \in Regs |-> [len |-> 0, ptr |-> 0]]]
